@@ -138,6 +138,17 @@ def run(ctx):
             if not any(call_matches(t, rx) for _, rx in steps) and sh not in ('ArxmlLexer::new',):
                 extra.add(sh)
     C.check(not extra, 'C02-SIB-header', 'probe-has-no-extra-rejecting-step', 'the header probe calls %s, which the loader prefix does not' % sorted(extra))
+    # ... and it decides on the results of those steps alone: it reads no parser state that the loader's verdict does not depend on
+    # (a lenient load succeeds WITH warnings; a probe that looks at the warning list rejects buffers that load)
+    state = set()
+    for x in P.with_closures(ch):
+        for pos, role, pl, st_ in iter_uses(x):
+            if is_local_op(pl):
+                for p_ in pl['p']:
+                    if p_.startswith('.ArxmlParser.') and p_.split('.')[-1] not in ('buffer', 'filename'):
+                        state.add(p_.split('.')[-1])
+    C.check(not state, 'C02-SIB-header', 'probe-decides-on-the-loader-steps-alone', 'the header probe reads parser state (%s) besides the results of the loader steps: its verdict can differ from the loader\'s on a buffer that loads (e.g. a header that lenient loading accepts with a warning)' % sorted(state),
+            '%s:%d' % (ch.file, ch.line), sample={'fn': 'check_arxml_header', 'parser_fields_read': sorted(state)})
     # both skip comments in a loop around next()
     for b_, nm in ((ch, 'probe'), (pa, 'loader')):
         nx = [pos for pos, t in b_.iter_calls() if call_matches(t, r'ArxmlParser.*::next$')]
